@@ -253,6 +253,7 @@ def run(ctx, rep):
     r02c(ctx, rep, cr)
     r02d(ctx, rep, cr)
     wal_rules.r02e(ctx, rep, ['TensorWal'])
+    wal_rules.r02f(ctx, rep, ['TensorWal'])
     if ctx.tier == 'thorough':
         wal_rules.r02b(ctx, rep, ['RaftWal', 'TxWal'])
         wal_rules.r02e(ctx, rep, ['RaftWal', 'TxWal'])
